@@ -237,6 +237,7 @@ func serve(eventHandler EventHandler, listener *listener, options *Options, prot
 			redisAddrs:   options.RedisServers,
 			passwd:       options.RedisPasswd,
 			redisWrapper: new(redisWrapper),
+			ServerMap:    newNodeTable(),
 		},
 	}
 
